@@ -207,6 +207,10 @@ def run(ctx):
                 ok = bool(conds) and all(any(re.search(r"^discr\(\(a1\[\] as Meta\)\.0\)=Path$", a) for a in d) for d in conds)
                 ctx.ob("C09.B.unit-variant-needs-path", b.key, "Ok(%s)" % e, ok, "unit variant result must be guarded by Meta::Path")
     ctx.floor("C09.B", "derived enum from_list fns", n_enum, 12)
+    if ctx.tier == "thorough":
+        from . import corpus
+        n_tab = corpus.name_table_rules(ctx, "C09", "enum")
+        ctx.floor("C09.N", "corpus enums with a recovered dispatch table", n_tab, 60)
     return ctx.finish(
         explanation="Guards of the options layer, emission conditions and shapes of the unit/data arm templates and the enum fn-body template, sibling agreement rules, and arity/dispatch rules over %d derived enums." % n_enum,
         assumptions=["[B] quantifies over the enums in tests/ and examples/ (plus the corpus in thorough)"],
